@@ -6,10 +6,14 @@ type C04Case struct {
 	Launch     string   `json:"launch"`     // cmd | runner | reattach
 	Pattern    string   `json:"pattern"`    // single | sequential | concurrent | cleanup
 	Behaviours []string `json:"behaviours"` // cleanup: one per managed client
+	// PreKill (cleanup): Kill was called on this managed client before its Start (a no-op on a client that has
+	// no process yet); the process it starts afterwards is still CleanupClients' to end
+	PreKill []bool `json:"preKill,omitempty"`
 }
 
 type C04Client struct {
 	Behaviour    string `json:"behaviour"`
+	PreKill      bool   `json:"preKill,omitempty"`
 	Pid          int    `json:"pid"`
 	SetupErr     string `json:"setupErr"`
 	StateBefore  string `json:"stateBefore"`
